@@ -117,8 +117,11 @@ package fox
 //@ -- lookupByPath is under contract in verif_contracts_walk.go
 //@ -- lookupByDomain is under contract in verif_contracts_walk.go
 
-//@ func (roots).lookup props C09,C08,C01 partial
+//@ func (roots).lookup props C09,C08,C01
 //@   requires c != nil && c.params != nil && c.tsrParams != nil && c.skipNds != nil
+//@   requires safety-args: t != nil && c.params != c.tsrParams && len(path) < 4294967295 && len(hostPort) < 4294967295
+//@   requires safety-roots: len(r) >= verb && (forall j int :: {r[j]} 0 <= j && j < len(r) ==> r[j] != nil)
+//@   requires safety-wf: heapWF()
 //@   modifies C[Params], C[skippedNodes], c.tsr, E[Param], E[skippedNode], released
 //@   assert-at call lookupByDomain#1 : stripped-host: same(arg_host, netutil.StripHostPort(hostPort)) && same(arg_path, path) && arg_target == r[index] && arg_lazy == lazy
 //@   requires safety-live: !released[box(c)]
